@@ -89,6 +89,26 @@ def runCase (j : Json) : Except String Json := do
   -- the body returns an encoding of its own locals, so that different bindings give different results
   let f : Body := fun b => if raises then .raised (.body 1) else
     .ret (.str (reprStr ret ++ "|" ++ (boundJ (.ok (sortB b))).compress))
+  let parseOpts (o : Json) : Except String Opts := do
+    pure { actionType := (o.getObjValAs? String "action_type").toOption,
+           includeArgs := (o.getObjValAs? (List String) "include_args").toOption,
+           includeResult := ← o.getObjValAs? Bool "include_result" }
+  -- optional outer layer of a stacked decoration: {"outer_opts": opts, "outer_meta": {"module","qualname"}}
+  let stacked : Json ← match j.getObjVal? "outer_opts" with
+    | .ok (.null) => pure Json.null
+    | .error _ => pure Json.null
+    | .ok oj => do
+      let oo ← parseOpts oj
+      let omj ← j.getObjVal? "outer_meta"
+      let om : FnMeta := { module := ← omj.getObjValAs? String "module", qualname := ← omj.getObjValAs? String "qualname" }
+      let r := decoratedTwice om m sig oo opts f pos kw
+      let ib : Json := match outer sig.demote pos kw with
+        | .error _ => Json.null
+        | .ok (p1, k1) => match outer sig p1 k1 with
+          | .error _ => Json.null
+          | .ok (p2, k2) => boundJ (bind sig p2 k2)
+      pure (Json.mkObj [("run", runJ r), ("innerBound", ib), ("transparent", toJson (decide (r.result = callDirect sig f pos kw))),
+                        ("decorate", match decorate sig oo with | .ok _ => "ok" | .error e => excJ e)])
   let w := wrapper m sig opts f pos kw
   let d := decorated m sig opts f pos kw
   let direct := callDirect sig f pos kw
@@ -108,7 +128,7 @@ def runCase (j : Json) : Except String Json := do
     ("outer", outerJ), ("innerBound", innerBound),
     ("direct", outcomeJ direct),
     ("wrapper", runJ w), ("wrapperTransparent", toJson (decide (w.result = direct))),
-    ("decorated", runJ d), ("transparent", toJson (decide (d.result = direct)))]
+    ("decorated", runJ d), ("transparent", toJson (decide (d.result = direct))), ("stacked", stacked)]
 
 partial def loop (h : IO.FS.Stream) : IO Unit := do
   let line ← h.getLine
